@@ -30,6 +30,7 @@ import (
 	"testing"
 
 	"github.com/miekg/dns"
+	"github.com/semihalev/sdns/config"
 	"github.com/semihalev/sdns/internal/mock"
 )
 
@@ -587,6 +588,61 @@ func vC12QueryCase(r *rand.Rand, out *vC12Out) {
 	})
 }
 
+// the operator-facing configuration -> the policy every ledger is created from, and what a ledger
+// created from it then admits: configured limits are the enforced ones, omitted ones get the defaults
+func vC12PolicyCase(r *rand.Rand, out *vC12Out) {
+	modes := []config.RecursionFirewallMode{"", config.RecursionFirewallModeOff, config.RecursionFirewallModeShadow, config.RecursionFirewallModeEnforce, "Enforce"}
+	mi := r.Intn(len(modes))
+	if mi == 4 && r.Intn(3) != 0 {
+		mi = 3
+	}
+	lim := func() uint32 {
+		switch r.Intn(6) {
+		case 0:
+			return 0
+		case 1:
+			return uint32(1 + r.Intn(3))
+		case 2:
+			return uint32(30 + r.Intn(200))
+		default:
+			return uint32(1 + r.Intn(40))
+		}
+	}
+	raw := config.RecursionFirewallConfig{Mode: modes[mi], MaxOutboundQueries: lim(), MaxInternalQueries: lim(), MaxDNSKEYCandidates: lim(),
+		MaxRRsetSignatureChecks: lim(), MaxSignatureChecks: lim(), MaxDSDigests: lim(), MaxNSEC3Hashes: lim(), MaxConcurrentCrypto: lim()}
+	var pol RecursionWorkPolicy
+	panicked := false
+	func() {
+		defer func() {
+			if recover() != nil {
+				panicked = true
+			}
+		}()
+		pol = MustRecursionWorkPolicyFromConfig(raw)
+	}()
+	// what a tree governed by this policy admits per aggregate kind (enforce only refuses)
+	var acc [5]int
+	if !panicked {
+		l := NewRecursionWorkLedger(pol)
+		kinds := []RecursionWorkKind{RecursionWorkOutboundQuery, RecursionWorkInternalQuery, RecursionWorkSignature, RecursionWorkDSDigest, RecursionWorkNSEC3Hash}
+		for i, k := range kinds {
+			for n := 0; n < 260; n++ {
+				if l.Debit(k) == nil {
+					acc[i]++
+				}
+			}
+		}
+	}
+	out.emit(map[string]any{
+		"k": "policy-" + []string{"omitted", "off", "shadow", "enforce", "invalid"}[mi],
+		"coq": fmt.Sprintf("CasePolicy %d [%d;%d;%d;%d;%d;%d;%d;%d] %s %s [%d;%d;%d;%d;%d]", mi, raw.MaxOutboundQueries, raw.MaxInternalQueries, raw.MaxDNSKEYCandidates,
+			raw.MaxRRsetSignatureChecks, raw.MaxSignatureChecks, raw.MaxDSDigests, raw.MaxNSEC3Hashes, raw.MaxConcurrentCrypto, vC12Bool(panicked), vC12Policy(pol),
+			acc[0], acc[1], acc[2], acc[3], acc[4]),
+		"nontrivial": mi == 3,
+		"desc":       map[string]any{"config": fmt.Sprintf("%+v", raw), "panicked": panicked, "policy": fmt.Sprintf("%+v", pol), "accepted(out,int,sig,ds,nsec3) of 260": acc},
+	})
+}
+
 func TestVerifC12Ledger(t *testing.T) {
 	path := os.Getenv("VERIF_OUT")
 	if path == "" {
@@ -613,5 +669,8 @@ func TestVerifC12Ledger(t *testing.T) {
 			vC12GuardCase(r, out)
 		}
 		vC12QueryCase(r, out)
+		if c%2 == 1 {
+			vC12PolicyCase(r, out)
+		}
 	}
 }
